@@ -188,15 +188,38 @@ pub fn run(c: &[u64]) -> Vec<i128> {
             if preinstalled && catch(std::panic::AssertUnwindSafe(|| install_other(&mut idt))).is_none() {
                 return vec![PANIC];
             }
+            // every fourth case: all 256 gates already hold a present gate whose handler lies far away from
+            // any stub (all offset bits differ); the installed stub must replace it completely
+            let dirtied = (*v + *k + *rsp_off) % 4 == 2;
+            let far: u64 = 0x0000_7fff_5555_a000;
+            let csel = CS::get_reg().0 as u64;
+            let (dlo, dhi) = ((far & 0xffff) | (csel << 16) | (0x8e00u64 << 32) | (((far >> 16) & 0xffff) << 48), far >> 32);
+            if dirtied {
+                let p = &mut idt as *mut InterruptDescriptorTable as *mut u64;
+                for i in 0..256usize {
+                    p.add(2 * i).write(dlo);
+                    p.add(2 * i + 1).write(dhi);
+                }
+            }
             if catch(std::panic::AssertUnwindSafe(|| install(&mut idt, Bound::Unbounded, Bound::Unbounded))).is_none() {
                 return vec![PANIC];
             }
             let w = raw(&idt);
             let (lo, hi) = (w[2 * *v as usize], w[2 * *v as usize + 1]);
-            if lo >> 47 & 1 == 0 {
+            if lo >> 47 & 1 == 0 || (dirtied && (lo, hi) == (dlo, dhi)) {
+                // nothing was installed for this vector (a reserved one): the gate is as it was
                 return vec![NONE];
             }
             let target = (lo & 0xffff) | ((lo >> 48) << 16) | ((hi & 0xffff_ffff) << 32);
+            // the gate must be the one the same installation writes into a fresh table
+            let mut fresh = InterruptDescriptorTable::new();
+            if catch(std::panic::AssertUnwindSafe(|| install(&mut fresh, Bound::Unbounded, Bound::Unbounded))).is_none() {
+                return vec![PANIC];
+            }
+            let wf = raw(&fresh);
+            if (wf[2 * *v as usize], wf[2 * *v as usize + 1]) != (lo, hi) {
+                return vec![-78];
+            }
             let landing = LANDING.as_ptr() as u64;
             let (cs, ss) = (CS::get_reg().0 as u64, SS::get_reg().0 as u64);
             let fl = 0x202 | (rflags & FLAG_MASK);
